@@ -19,7 +19,7 @@ pub fn prop() -> Prop {
     Prop {
         id: "C14",
         level: "exploration",
-        rule: "(a) complete enumeration of every built-in font (table extracted from /repo) x every character of its mapping: the font's glyph_mapping.index(c) agrees with the mapping constant named in the font's source, is unique, its cell and the replacement glyph's cell lie completely inside font.image, and the character rendered alone reproduces that cell (thorough: every pair; quick: every font with 24 characters spread over its mapping). (b) proptest tapes: random built-in font, strings of mapped and unmapped characters (controls, non-BMP), text/background colour present or absent, underline/strikethrough in {None, TextColor, Custom}. (d) StrGlyphMapping strings of 1..=7 segments (single characters and \\0-ranges of 1..=6 characters from ASCII, Latin-1, Greek, CJK and non-BMP code points) judged by an independent decoder of the documented encoding: index(), contains(), chars(), ranges(), replacement index for characters next to every segment, and a text rendered through a font with that mapping. (c) custom fonts built by the harness: atlas of 1..=4 rows with different row lengths, glyph 1..=9 x 1..=9, spacing 0..=3, own StrGlyphMapping with ranges or a closure mapping. Oracle: a reference renderer reading the atlas (cell i at x = i*(width+spacing); pixel = font.image.pixel(cell origin + (dx,dy)) -> text colour / background / untouched; spacing columns -> background if set; strikethrough then underline over n*(width+spacing)-spacing columns at the font's offsets); the recorded pixel map and the returned position must equal the reference. Non-trivial: at least one mapped non-blank and one unmapped character, or spacing > 0 with a background or decoration.",
+        rule: "(a) complete enumeration of every built-in font (table extracted from /repo) x every character of its mapping: the font's glyph_mapping.index(c) agrees with the mapping constant named in the font's source, is unique, its cell and the replacement glyph's cell lie completely inside font.image, and the character rendered alone reproduces that cell (thorough: every pair; quick: every font with 24 characters spread over its mapping). (b) proptest tapes: random built-in font, strings of mapped and unmapped characters (controls, non-BMP), text/background colour present or absent, underline/strikethrough in {None, TextColor, Custom}. (d) StrGlyphMapping strings of 1..=7 segments (single characters and \\0-ranges of 1..=6 characters from ASCII, Latin-1, Greek, CJK and non-BMP code points) judged by an independent decoder of the documented encoding: index(), contains(), chars(), ranges(), replacement index for characters next to every segment, and a text rendered through a font with that mapping. (e) very_long_lines: one line whose width crosses 2^15 or 2^16 pixels (up to about 11 000 characters), judged on windows at the start, at 2^15, at 2^16 and at the end of the line by the same reference renderer, plus the returned position and measure_string. (c) custom fonts built by the harness: atlas of 1..=4 rows with different row lengths, glyph 1..=9 x 1..=9, spacing 0..=3, own StrGlyphMapping with ranges or a closure mapping. Oracle: a reference renderer reading the atlas (cell i at x = i*(width+spacing); pixel = font.image.pixel(cell origin + (dx,dy)) -> text colour / background / untouched; spacing columns -> background if set; strikethrough then underline over n*(width+spacing)-spacing columns at the font's offsets); the recorded pixel map and the returned position must equal the reference. Non-trivial: at least one mapped non-blank and one unmapped character, or spacing > 0 with a background or decoration.",
         assumptions: vec![
             "ImageRaw::pixel is the atlas reader (pinned by C09)",
             "single lines with Baseline::Top and left alignment (layout is C15's business)",
@@ -29,6 +29,7 @@ pub fn prop() -> Prop {
             Sub::tape("builtin_render", 300, 100_000, 5_000_000, builtin_render),
             Sub::tape("custom_fonts", 80, 100_000, 5_000_000, custom_fonts),
             Sub::tape("str_mappings", 80, 100_000, 5_000_000, str_mappings),
+            Sub::tape("very_long_lines", 40, 2_000, 100_000, very_long_lines),
         ],
     }
 }
@@ -440,5 +441,141 @@ fn str_mappings(d: &mut Dec, cx: &mut Cx) -> Res {
     let st = LineStyle::gen(d);
     check_line(&font, &text, &st, Point::new(1, 1), "mapping")?;
     cx.nontrivial(segs.len() >= 2 && any_range);
+    Ok(())
+}
+
+
+// ---- very long lines ---------------------------------------------------------------------------
+
+/// Records only the pixels whose x lies in one of the windows (everything else is counted).
+struct WindowT {
+    wins: Vec<(i32, i32)>,
+    map: Map<C>,
+    outside: u64,
+}
+
+impl embedded_graphics::geometry::Dimensions for WindowT {
+    fn bounding_box(&self) -> embedded_graphics::primitives::Rectangle {
+        embedded_graphics::primitives::Rectangle::new(Point::new(-200_000, -200_000), Size::new(400_000, 400_000))
+    }
+}
+
+impl embedded_graphics::draw_target::DrawTarget for WindowT {
+    type Color = C;
+    type Error = core::convert::Infallible;
+    fn draw_iter<I: IntoIterator<Item = embedded_graphics::Pixel<C>>>(&mut self, pixels: I) -> Result<(), Self::Error> {
+        for embedded_graphics::Pixel(p, c) in pixels {
+            if self.wins.iter().any(|(a, b)| p.x >= *a && p.x <= *b) {
+                self.map.insert((p.x, p.y), c);
+            } else {
+                self.outside += 1;
+            }
+        }
+        Ok(())
+    }
+}
+
+fn very_long_lines(d: &mut Dec, cx: &mut Cx) -> Res {
+    let fi = d.idx(FONTS.len());
+    let (name, base, _) = FONTS[fi];
+    let spacing = if d.ratio(1, 3) { d.u(1, 2) } else { 0 };
+    let font_value = MonoFont { character_spacing: spacing, ..*base };
+    let font = &font_value;
+    let (cw, sp) = (font.character_size.width as i32, spacing as i32);
+    // line width just below / above 2^15 or 2^16
+    let target = d.pick(&[32_768, 65_536, 65_536, 65_536]) + d.i(-70, 400);
+    let n = ((target + sp) / (cw + sp)).max(1) + d.i(0, 2);
+    let chars = font_chars(fi);
+    let mut x = d.raw() | 1;
+    let text: String = (0..n)
+        .map(|_| {
+            x ^= x << 13;
+            x ^= x >> 17;
+            x ^= x << 5;
+            // mostly mapped characters, some unmapped ones
+            if x % 23 == 0 { '\u{1}' } else { chars[(x >> 8) as usize % chars.len()] }
+        })
+        .collect();
+    let st = LineStyle::gen(d);
+    let pos = Point::new(d.i(-20, 20), d.i(-20, 20));
+    let width = n * (cw + sp) - sp;
+    cx.describe(|| format!("font {} spacing {}: one line of {} characters = {} px at {:?}, {:?}; text starts {:?}", name, spacing, n, width, pos, st, text.chars().take(12).collect::<String>()));
+    cx.class(if width > 65_535 { "wider_than_65535" } else if width > 32_767 { "wider_than_32767" } else { "up_to_32767" });
+    let wins: Vec<(i32, i32)> = [0, 32_768, 65_536, width].iter().map(|k| (pos.x + k - 45, pos.x + k + 45)).collect();
+    let in_win = |x: i32| wins.iter().any(|(a, b)| x >= *a && x <= *b);
+    // reference: only the cells and decoration columns that touch a window
+    let mut expected: Map<C> = Map::new();
+    let (full, next_x) = {
+        // characters whose cell or following spacing touches a window, rendered one by one at their place
+        let mut m: Map<C> = Map::new();
+        let all: Vec<char> = text.chars().collect();
+        for (i, c) in all.iter().enumerate() {
+            let x0 = pos.x + i as i32 * (cw + sp);
+            if !(in_win(x0) || in_win(x0 + cw + sp) || in_win(x0 + (cw + sp) / 2)) {
+                continue;
+            }
+            // a one-character line without decorations at the cell's position, plus the spacing fill
+            let cell_style = LineStyle { text: st.text, background: st.background, underline: DecorationColor::None, strikethrough: DecorationColor::None };
+            let (cell, _) = render_line_ref(font, &c.to_string(), &cell_style, Point::new(x0, pos.y))?;
+            m.extend(cell);
+            if i + 1 < all.len() && sp > 0 {
+                if let Some(bg) = st.background {
+                    for dy in 0..font.character_size.height as i32 {
+                        for dx in 0..sp {
+                            m.insert((x0 + cw + dx, pos.y + dy), bg);
+                        }
+                    }
+                }
+            }
+        }
+        for (dec, dims) in [(st.strikethrough, font.strikethrough), (st.underline, font.underline)] {
+            if let Some(col) = effective(dec, st.text) {
+                for dy in 0..dims.height as i32 {
+                    for (a, b) in &wins {
+                        for xx in (*a).max(pos.x)..=(*b).min(pos.x + width - 1) {
+                            m.insert((xx, pos.y + dims.offset as i32 + dy), col);
+                        }
+                    }
+                }
+            }
+        }
+        (m, pos.x + width)
+    };
+    for (k, v) in full {
+        if in_win(k.0) {
+            expected.insert(k, v);
+        }
+    }
+    let style = st.build(font);
+    let mut t = WindowT { wins: wins.clone(), map: Map::new(), outside: 0 };
+    let next = Text::with_baseline(&text, pos, style, Baseline::Top).draw(&mut t).unwrap();
+    // F-17 (known finding): with neither text nor background colour in a spaced font the run is exactly one
+    // trailing spacing too wide (decorations and returned position); recognised only in that exact form
+    if st.text.is_none() && st.background.is_none() && sp > 0 {
+        let mut alt = expected.clone();
+        for (dec, dims) in [(st.strikethrough, font.strikethrough), (st.underline, font.underline)] {
+            if let Some(col) = effective(dec, st.text) {
+                for dy in 0..dims.height as i32 {
+                    for xx in pos.x + width..pos.x + width + sp {
+                        if in_win(xx) {
+                            alt.insert((xx, pos.y + dims.offset as i32 + dy), col);
+                        }
+                    }
+                }
+            }
+        }
+        if (alt != expected || next != Point::new(next_x, pos.y)) && alt == t.map && next == Point::new(next_x + sp, pos.y) {
+            return fail("transparent_spaced_text:trailing_spacing", format!("very long line: draw returned {:?} (measure_string predicts x = {}) and the decorations are {} px wide instead of {}", next, next_x, width + sp, width));
+        }
+    }
+    if let Some(df) = diff_maps("reference renderer (atlas), windows only", &expected, "Text::draw", &t.map) {
+        return fail("long_line:pixels", df);
+    }
+    ensure!(next == Point::new(next_x, pos.y), "long_line:next_position", "draw returned {:?}, expected {:?} ({} characters of {} px plus spacing {})", next, Point::new(next_x, pos.y), n, cw, sp);
+    use embedded_graphics::text::renderer::TextRenderer;
+    let m = style.measure_string(&text, pos, Baseline::Top);
+    ensure!(m.next_position == Point::new(next_x, pos.y), "long_line:measure_next_position", "measure_string predicts {:?}, expected {:?}", m.next_position, Point::new(next_x, pos.y));
+    ensure!(m.bounding_box.top_left.x == pos.x && m.bounding_box.size.width as i32 == width, "long_line:measure_width", "measure_string box {:?}, expected x = {} and width {}", m.bounding_box, pos.x, width);
+    cx.nontrivial(width > 32_767 && !expected.is_empty());
     Ok(())
 }
